@@ -532,7 +532,8 @@ def sem_script(rng, kind):
     return [first, ST("expect", re_src=rng.choice([E_OK, E_PLUG, E_PLUG, E_WORD]))] + sem_body(rng, 0, kind.endswith("_ranged"))
 
 
-SEM_KINDS = ["on", "on_ranged", "on_all", "off", "off_ranged", "off_all", "cycle", "cycle_ranged", "cycle_all", "reset", "status", "status_all",
+SEM_KINDS = ["on", "on_ranged", "on_all", "off", "off_ranged", "off_all", "cycle", "cycle_ranged", "cycle_all", "reset", "reset_ranged", "reset_all", "status", "status_all",
+             "beacon_off", "beacon_off_ranged",
              "beacon_on", "beacon_on_ranged", "status_temp", "status_temp_all"]
 
 
